@@ -25,7 +25,7 @@ CLAIMED = {
    text="Bounded, partial: the reading direction (from_string_base: every ASCII text of 1-4 characters, bases 2/10/16/36, optional minus, rejection of foreign characters), the base-range errors of both directions, and one-digit rendering for every base are decided by SAT. Rendering of more than one digit, the integer round trip and the rational text round trip are NOT decided (strings of value-dependent length are beyond the symbolic executor) - see evidence.outside_claim.",
    note="Trusted: Kani, CBMC, CaDiCaL, one-limb models of BigNum::{mul,add,new,rem,div}."),
  "C10": dict(cat="model_checking", ref="DESIGN.md §3 C10",
-   text="Bounded: ONE opt_execute call with stack 0, 1 or 2 selected (before the command or by the command itself) for every command kind and all stack values: it returns 'gave up' with the untouched pre-state, the reader stub is never called, the exit stub is never reached, nothing is written. The 100-jump budget is only attempted in the thorough tier (stretch; it does not finish within the caps).",
+   text="Bounded: ONE opt_execute call with stack 0, 1 or 2 selected (before the command or by the command itself) for every command kind and all stack values: it returns 'gave up' with the untouched pre-state, the reader stub is never called, the exit stub is never reached, nothing is written. The 100-jump budget (endless label-jump loop and endless white-heart loop: gives up after 100 jumps, state rolled back) is decided in the thorough tier only: the two harnesses unwind the real loop 204 times and need about 3 h each.",
    note="Same trusted base as C01; reader and process::exit are replaced by stubs that turn any use into an assertion failure."),
  "C14": dict(cat="model_checking", ref="DESIGN.md §3 C14",
    text="Bounded, kernels only: the stdin refill (one pending line of 1-3 characters, code point symbolic over its whole UTF-8 length class, or end of input) and the stdout/stderr push (every value 0..0x120000) are decided by SAT against the definition: value = code point, NaN exactly at end of input, bytes = UTF-8 of the scalar or the encoding error. Copy programs as a whole, optimised and compiled variants are not decided.",
